@@ -168,3 +168,42 @@ pub fn parse_scene_pair(case: &str) -> Result<(Scene, Scene), String> {
     let b = parse_scene(it.next().ok_or("missing scene B")?.trim())?;
     Ok((a, b))
 }
+
+/// The device rectangle a draw at position `at` of `ops` can reach: the intersection of the clip
+/// rectangles open at that point and of the bounds of the layers open at that point (a layer
+/// keeps the clip bounds it was pushed under, also after that clip is popped), within the surface.
+pub fn reach_rect(ops: &[Op], at: usize, w: i32, h: i32) -> [i32; 4] {
+    let inter = |a: [i32; 4], b: [i32; 4]| [a[0].max(b[0]), a[1].max(b[1]), a[2].min(b[2]), a[3].min(b[3])];
+    let mut clips: Vec<[i32; 4]> = Vec::new();
+    let mut layers: Vec<[i32; 4]> = Vec::new();
+    let surface = [0, 0, w, h];
+    for op in &ops[..at] {
+        match op {
+            Op::PushClipRect(x0, y0, x1, y1) => {
+                let cur = clips.last().copied().unwrap_or(surface);
+                clips.push(inter(cur, [*x0, *y0, *x1, *y1]));
+            }
+            Op::PushClip(_) => {
+                let cur = clips.last().copied().unwrap_or(surface);
+                clips.push(cur);
+            }
+            Op::PopClip => {
+                clips.pop();
+            }
+            Op::PushLayer(..) => {
+                let cur = clips.last().copied().unwrap_or(surface);
+                let lb = layers.last().copied().unwrap_or(surface);
+                layers.push(inter(inter(cur, surface), lb));
+            }
+            Op::PopLayer => {
+                layers.pop();
+            }
+            _ => {}
+        }
+    }
+    let mut r = clips.last().copied().unwrap_or(surface);
+    if let Some(l) = layers.last() {
+        r = inter(r, *l);
+    }
+    inter(r, surface)
+}
